@@ -201,7 +201,7 @@ CHECKS = {
               'documentation table (numbers fix the residue difference, 0 against > or < fixes the direction, > < runs '
               'compare by length, * runs name equal / different residues) and is symmetric; the placements tried are '
               'exactly the injective assignments of molecule atoms to link atoms and a placement is used iff it satisfies '
-              'every condition (attributes with Choice / NotDefinedOrNot, required AND absent bonds among matched atoms, '
+              'every condition (attributes with Choice / NotDefinedOrNot, the modifications attribute, required AND absent bonds among matched atoms, '
               'orders, non-edges, patterns, molecule meta), each condition characterised; applying a placement leaves '
               'every interaction of the link present on the matched atoms (or replaced by a later one with the same atoms '
               'and version); after adds, whatever carries an added identity is the later instance (later overrides '
@@ -212,7 +212,7 @@ CHECKS = {
         design_ref='DESIGN.md section 5, C05',
         note=('Trusted: Coq kernel + vm_compute; networkx VF2 is replaced in the model by exhaustive enumeration (agreement '
               'checked, not proved); geometry-derived parameters are recomputed numerically by the harness (not a theorem); '
-              'the order in which networkx reports placements is not modelled; the modifications attribute is not modelled.'),
+              'the order in which networkx reports placements is not modelled.'),
         technique='Coq proof (case analysis + lia for the order table, enumeration soundness/completeness, fold invariants for interaction tables) + in-Coq correspondence'),
     'C01': dict(
         category='proof',
